@@ -8,6 +8,10 @@ use serde_json::json;
 use std::sync::atomic::{AtomicU64, Ordering};
 
 const ALPHA: [&str; 14] = ["$", "{", "}", "\\", "g", "<", ">", "0", "1", "9", "x", "_", "é", " "];
+/// wider alphabet for the seeded random templates: identifier characters are "letters, digits or
+/// underscores" in the Unicode sense, so non-ASCII digits and letters, and characters that are
+/// neither, belong in the workload
+const WIDE: [&str; 26] = ["$", "$", "{", "}", "\\", "\\", "g", "<", ">", "0", "1", "9", "x", "_", "é", " ", "٣", "²", "π", "１", "-", "·", "\u{301}", "😀", "ⅷ", "x٣"];
 
 fn is_id(c: char) -> bool {
     c.is_alphanumeric() || c == '_'
@@ -163,6 +167,7 @@ fn sets() -> Vec<CapSet> {
         CapSet { pattern: "(?<x>a)(?<_>b)?(?<é>c)(?<1x>d)(?=)", text: "-acd-", groups: vec![Some("acd"), Some("a"), None, Some("c"), Some("d")], names: vec![("x", 1), ("_", 2), ("é", 3), ("1x", 4)] },
         CapSet { pattern: "(a)(b)?(c)(d)(e)(f)(g)(h)(i)(j)", text: "acdefghij", groups: vec![Some("acdefghij"), Some("a"), None, Some("c"), Some("d"), Some("e"), Some("f"), Some("g"), Some("h"), Some("i"), Some("j")], names: vec![] },
         CapSet { pattern: "(?<g>é+)(?<x9>😀)?(?<x>\\b)", text: "éé", groups: vec![Some("éé"), Some("éé"), None, Some("")], names: vec![("g", 1), ("x9", 2), ("x", 3)] },
+        CapSet { pattern: "(?<x٣>a)(?<π>b)(?<x>c)(?<１>d)?", text: "abc", groups: vec![Some("abc"), Some("a"), Some("b"), Some("c"), None], names: vec![("x٣", 1), ("π", 2), ("x", 3), ("１", 4)] },
     ]
 }
 
@@ -201,22 +206,40 @@ pub fn run(ctx: &Ctx) -> Outcome {
         work.push((usize::MAX, i, n_random / rchunks));
     }
     let route_seen = AtomicU64::new(0);
+    let fixture_failures = AtomicU64::new(0);
     let acc = par_run(&work, false, None, |_, &(len, a, b), acc| {
         let fixes: Vec<Fix<'_>> = all_sets
             .iter()
-            .map(|set| {
-                let re = Regex::new(set.pattern).expect("fixture pattern");
+            .filter_map(|set| {
+                // a capture set whose pattern no longer compiles (or no longer yields the assumed
+                // groups) cannot judge expansion; it is skipped and counted, the others go on
+                let re = match Regex::new(set.pattern) {
+                    Ok(re) => re,
+                    Err(_) => {
+                        fixture_failures.fetch_or(1, Ordering::Relaxed);
+                        return None;
+                    }
+                };
                 if route(&re).is_vm() {
                     route_seen.fetch_or(1, Ordering::Relaxed);
                 } else {
                     route_seen.fetch_or(2, Ordering::Relaxed);
                 }
-                let caps = re.captures(set.text).expect("fixture search").expect("fixture match");
+                let caps = match re.captures(set.text) {
+                    Ok(Some(c)) => c,
+                    _ => {
+                        fixture_failures.fetch_or(1, Ordering::Relaxed);
+                        return None;
+                    }
+                };
                 // the fixture itself must report the groups the model assumes
                 for (i, g) in set.groups.iter().enumerate() {
-                    assert_eq!(caps.get(i).map(|m| m.as_str()), *g, "fixture group {} of {}", i, set.pattern);
+                    if caps.get(i).map(|m| m.as_str()) != *g {
+                        fixture_failures.fetch_or(1, Ordering::Relaxed);
+                        return None;
+                    }
                 }
-                Fix { set, re, caps }
+                Some(Fix { set, re, caps })
             })
             .collect();
         let dflt = Expander::default();
@@ -291,8 +314,8 @@ pub fn run(ctx: &Ctx) -> Outcome {
         };
         if len == usize::MAX {
             for _ in 0..b {
-                let l = 7 + rng.below(10) as usize;
-                let tpl: String = (0..l).map(|_| *rng.pick(&ALPHA)).collect();
+                let l = 2 + rng.below(13) as usize;
+                let tpl: String = if rng.chance(1, 2) { (0..l).map(|_| *rng.pick(&WIDE)).collect() } else { (0..l.max(7)).map(|_| *rng.pick(&ALPHA)).collect() };
                 one(acc, &tpl);
             }
         } else {
@@ -304,12 +327,16 @@ pub fn run(ctx: &Ctx) -> Outcome {
     let mut out = Outcome::new(acc);
     out.distinct_nontrivial = out.acc.distinct;
     out.exhaustive = true;
-    out.rule = format!("all templates over the 14 symbols $ {{ }} \\ g < > 0 1 9 x _ é space up to length {} (exhaustive, {} templates) plus {} seeded random ones of length 7-16; x 4 capture sets (named incl. a group literally named 1x and an unmatched group, on both routes; 10 numbered groups; multi-byte and empty group texts) x both expanders x expansion / append_expansion / write_expansion / write_expansion_vec / Captures::expand against the model and each other; expansion(escape(s)) = s; check = Ok => every reference the model extracts names an existing group. Non-trivial: distinct templates containing >= 1 substitution under either syntax.", maxlen, (0..=maxlen).map(|l| 14u64.pow(l as u32)).sum::<u64>(), n_random);
+    out.rule = format!("all templates over the 14 symbols $ {{ }} \\ g < > 0 1 9 x _ é space up to length {} (exhaustive, {} templates) plus {} seeded random ones of length 2-16, half of them over a wider alphabet with non-ASCII digits / letters / marks (٣ ² π １ · ⅷ combining acute, emoji); x 5 capture sets (named incl. a group literally named 1x and an unmatched group, on both routes; 10 numbered groups; multi-byte and empty group texts) x both expanders x expansion / append_expansion / write_expansion / write_expansion_vec / Captures::expand against the model and each other; expansion(escape(s)) = s; check = Ok => every reference the model extracts names an existing group. Non-trivial: distinct templates containing >= 1 substitution under either syntax.", maxlen, (0..=maxlen).map(|l| 14u64.pow(l as u32)).sum::<u64>(), n_random);
     out.assumptions = vec!["the model (c12.rs parse_default / parse_python) is written from the documentation of Captures::expand and Expander::python".into()];
     let rs = route_seen.load(Ordering::Relaxed);
     let subst = out.acc.get("expansions-with-nonempty-substitution");
     out.extra = json!({"capture_sets": all_sets.iter().map(|s| s.pattern).collect::<Vec<_>>()});
     out.require(rs == 3, "capture sets must cover both the wrapped and the VM route");
+    if fixture_failures.load(Ordering::Relaxed) != 0 {
+        out.acc.count("capture-sets-unusable (pattern does not compile or groups differ from the fixture)");
+        out.require(false, "a capture-set fixture is unusable on this tree (its pattern does not compile or reports other groups); the remaining sets were still checked");
+    }
     out.require(subst > 0, "no substitution resolved to a non-empty group");
     out
 }
